@@ -12,16 +12,27 @@ CLAIM = dict(
           "independently written semantics of the region word (level in bits 17:16, base masked to the level, 16 block "
           "bits), every requested core of every requested chip exactly once and nothing else; the list is strictly "
           "increasing in (region, core mask), hence in (region << 32) | mask and (region << 18) | mask; a level-3 word "
-          "from get_region_for_chip selects that chip only. Tied to rig/machine_control/regions.py by exact list "
-          "equality (plus tree state, add_core return values and generator order) on generated target sets per run, "
-          "with the Lean word semantics evaluated on the implementation's own pairs."),
+          "from get_region_for_chip selects that chip only. The executable oracle the driver runs on the "
+          "implementation's own output is proved to decide exactly these predicates for all inputs (exactB_iff, "
+          "nodupB_iff, strictB_iff). The word semantics is proved identical to the one C09's machine model uses "
+          "(c09_selects_agree) and the output is proved to meet the contract C09's load theorems assume of "
+          "compress_flood_fill_regions (c09_regions_contract, c09_compressOK). Tied to rig/machine_control/regions.py by "
+          "exact list equality (plus tree state, add_core return values and generator order) on generated target sets "
+          "per run, with the proved oracle evaluated on the implementation's own pairs."),
     design="3/C12",
-    note=("Insertion order (dict/set iteration) is an explicit input of the model and universally quantified in the "
-          "theorems. Out-of-range coordinates/cores raise ValueError in code and model."),
+    note=("Proved: everything above, about the Lean model and the Lean specification. Validated only (differential "
+          "testing, every run): that the Lean model computes what regions.py computes. Trusted: that SC&MP reads a "
+          "region word as documented. Insertion order (dict/set iteration) is an explicit input of the model and "
+          "universally quantified in the theorems. Out-of-range coordinates/cores raise ValueError in code and model. "
+          "regions.py has no public function besides get_region_for_chip, compress_flood_fill_regions and "
+          "RegionCoreTree (__init__, add_core, get_regions_and_coremasks); all are modelled and compared."),
     technique="Lean 4 theorems over a hand-written model + differential correspondence + Lean spec as oracle")
 
 THEOREMS = ["region_word_selects", "single_chip", "add_inv", "insert_all", "compress_ok", "compress_err",
-            "compress_exact", "exact_select_iff", "compress_sorted", "compress_keys", "chipsOf_spec"]
+            "compress_exact", "exact_select_iff", "compress_sorted", "compress_keys", "chipsOf_spec",
+            "exactB_iff", "nodupB_iff", "strictB_iff", "oracle_decides",
+            "c09_selects_agree", "c09_selectsCore_agree", "c09_strictlyIncreasing_agree",
+            "c09_regions_contract", "c09_compressOK"]
 
 RULE = ("target sets built from shapes: sparse points (whole grid or a small window), aligned full blocks of side "
         "4/16/64 (and 256 in the thorough tier) for a random core set with 0-3 holes (a hole removes some or all cores "
@@ -255,6 +266,8 @@ def judge(ctx, points_list):
             keys.append({"exception-on-valid-targets"})
         else:
             o = next(reps)
+            if not o["nodup"]:
+                raise RuntimeError("harness error: the oracle was given a target list with repetitions")
             keys.append({k for k, bad in (("not-exact", not o["exact"] or bool(o["bad"])),
                                           ("not-increasing", not o["sorted"])) if bad})
     return keys
@@ -356,6 +369,8 @@ def eval_cases(ctx, cases):
                 ctx.tag("several_core_masks")
             nontriv = len(out) >= 2 or any(l < 3 for l in levels)
             o = c["oracle"]
+            if not o["nodup"]:      # hypothesis of exactB_iff, decided by the driver (nodupB_iff)
+                raise RuntimeError("harness error: the oracle was given a target list with repetitions")
             if o["exact"] == bool(o["bad"]):
                 ctx.tag("oracle_enumeration_vs_pointwise_differ" if o["exact"] else "oracle_nonexact_sample_missed")
             for key, bad, what in (
@@ -397,9 +412,10 @@ def run(ctx):
         "semantics of a region word as documented in regions.py / _send_ffcs (written independently in Lean as `selects`); "
         "that SC&MP implements this semantics is trusted",
         "the insertion order used by the implementation is the iteration order of the targets dict and its sets",
-        "the enumerating oracle exactB (expansion of every word through chipsOf, proved equal to `selects` by "
-        "chipsOf_spec, compared as sorted lists) is not itself proved equivalent to `Exact`; it is cross-checked on "
-        "every case by evaluating the literal `countSel` on sampled targets and non-targets"]
+        "the enumerating oracle (exactB, strictB) is proved to decide `Exact` / `StrictlyIncreasing` for target lists "
+        "without repetition (exactB_iff, strictB_iff); that hypothesis is decided by the driver on every call "
+        "(nodupB, nodupB_iff) and a repetition would be reported as a harness error; the literal `countSel` is still "
+        "evaluated on sampled targets and non-targets as a redundant cross-check"]
     n = ctx.scale(1500, 20000)
     nreg = ctx.scale(3000, 0)
     if ctx.extended:
